@@ -7,6 +7,14 @@ package loop
 //@ func computeSCEV
 //@   noframe
 //@   decreases [C17.term] 2 * (MaxSCEVDepth + 1 - depth) + 1
+// Memoisation (what keeps shared sub-expressions from being recomputed): a value found in the per-loop cache costs no
+// further work, and a value computed within the depth limit is in the cache on return.
+//@   ghost bodies int
+//@   init bodies = 0
+//@   call computeSCEVBody update bodies = bodies + 1
+//@   ensures [C17.memo] loop.SCEVCache != nil && depth <= MaxSCEVDepth ==> (v in loop.SCEVCache)
+//@   ensures [C17.memo] old(loop.SCEVCache != nil && (v in loop.SCEVCache)) ==> bodies == 0
+//@   ensures [C17.memo] bodies <= 1
 
 //@ func computeSCEVBody
 //@   noframe
